@@ -33,6 +33,9 @@ RULE = ("pairs of codes {equal, one char changed, case changed, nameplate change
         "before/after the words} x Deferred/delegated API x random delivery schedules with re-ordered message frames x sends "
         "before/after verification; codes/appids that cannot meet on a conformant server are additionally cross-delivered by "
         "hand; derive_key for purposes {'', 'a', 'a\\0', long, non-ASCII NFC/NFD} x lengths {0, 1, 16, 32, 64, 8160, 8161}; "
+        "plus 2-3 independent sessions (different nameplates, matching or near-miss codes) alive in one process, with the "
+        "peer's VERSION delivered before its PAKE on one session while the others run their key exchange, optionally "
+        "leaving that session unfinished; every session judged separately by the same oracle; "
         "non-trivial = a PAKE exchange happened; distinct = distinct canonical model-boundary traces")
 
 NFC = lambda s: unicodedata.normalize("NFC", s)  # noqa: E731  (reference normaliser: python's, not the repo's)
@@ -346,11 +349,70 @@ def random_case(rng):
                      early_close=rng.choice([None] * 9 + ["A"]), **kw)
 
 
+def multi_case(rng, sessions, **kw):
+    """several independent sessions (different nameplates) alive in ONE process.  Per session:
+    codeA/codeB, delegA/delegB, sendsA/sendsB, overtake (side "A" is handed the peer's VERSION
+    message before the peer's PAKE message, and the PAKE is held back while the other sessions run),
+    leftover (that held-back PAKE never arrives: an unfinished session stays behind)."""
+    ss = []
+    for i, sc in enumerate(sessions):
+        d = dict(codeA="%d-purple-sausages" % (3 + 2 * i), codeB=None, delegA=bool(i % 2), delegB=not (i % 2),
+                 sendsA=[], sendsB=[], overtake=False, leftover=False)
+        d.update(sc)
+        if d["codeB"] is None:
+            d["codeB"] = d["codeA"]
+        ss.append(d)
+    c = dict(kind="multi", sessions=ss, seed=rng.randrange(10**9), shuffle=0)
+    c.update(kw)
+    return c
+
+
+def multi_corpus(rng):
+    out = []
+    # VERSION overtakes PAKE in session 0 while session 1 does its own key exchange
+    out.append(multi_case(rng, [dict(overtake=True, sendsA=["a1"], sendsB=["b1"]), dict(sendsA=["a2"], sendsB=["b2"])]))
+    # the plain two-transfers-at-once run, in order
+    out.append(multi_case(rng, [dict(sendsA=["a1"]), dict(sendsB=["b2"])]))
+    out.append(multi_case(rng, [dict(), dict(overtake=True, delegA=False, delegB=False)], shuffle=40))
+    # ... an unfinished session with a parked VERSION stays behind
+    out.append(multi_case(rng, [dict(overtake=True, leftover=True), dict(sendsA=["a2"]), dict(sendsB=["b3"])]))
+    # ... and one of the other sessions has a wrong code (must still be told apart correctly)
+    out.append(multi_case(rng, [dict(overtake=True), dict(codeA="5-orange-marmalade", codeB="5-orange-marmalada"),
+                                dict(codeA="8-\u00c5ngstr\u00f6m", codeB="8-A\u030angstro\u0308m", overtake=True)]))
+    return out
+
+
+def random_multi(rng):
+    n = rng.choice([2, 2, 3])
+    nps = rng.sample([2, 3, 5, 8, 11, 40], n)
+    ss = []
+    for i in range(n):
+        wd = rng.choice(UNI_WORDS + ["purple-sausages", "x-y"])
+        codeA = "%d-%s" % (nps[i], rng.choice([NFC(wd), NFD(wd)]))
+        r = rng.random()
+        codeB = "%d-%s" % (nps[i], rng.choice([NFC(wd), NFD(wd)])) if r < 0.75 else \
+            transform("%d-%s" % (nps[i], NFC(wd)), rng.choice(["char", "case", "truncate"]), rng)
+        sends = lambda: [bytes(rng.randrange(256) for _ in range(rng.choice([1, 3]))).hex()  # noqa: E731
+                         for _ in range(rng.choice([0, 1, 2]))]
+        ss.append(dict(codeA=codeA, codeB=codeB, delegA=rng.random() < 0.5, delegB=rng.random() < 0.5,
+                       sendsA=sends(), sendsB=sends(), overtake=rng.random() < 0.5, leftover=False))
+    if not any(x["overtake"] for x in ss):
+        ss[rng.randrange(n)]["overtake"] = True
+    if n == 3 and rng.random() < 0.4:
+        k = rng.choice([i for i in range(n) if ss[i]["overtake"]])
+        ss[k]["leftover"] = True
+    return multi_case(rng, ss, shuffle=rng.choice([0, 20, 80]))
+
+
 def cases(rng, tier):
-    out = corpus(rng)
+    # the multi-session corpus runs first: its cases are self-contained reproducers of state shared
+    # between the wormholes of one process (a later case could merely inherit the damage)
+    out = multi_corpus(rng) + corpus(rng)
     n = 250 if tier == "quick" else 5000
     for _ in range(n):
         out.append(random_case(rng))
+    for _ in range(40 if tier == "quick" else 800):
+        out.append(random_multi(rng))
     if tier == "thorough":
         # small-scope exhaustive: every entry-mode pair x {equal, char-changed} x both API styles
         for ma in ("set", "input_before", "input_after"):
@@ -425,7 +487,152 @@ def _cross_deliver(W, run):
     W.settle()
 
 
+def _settle_only(W, allowed, limit=10000):
+    """`World.settle` restricted to the clients in `allowed` (the others' queues stay as they are)"""
+    n = 0
+    progress = True
+    while progress and n < limit:
+        progress = False
+        for c in W.clients:
+            ci = c.index
+            if ci not in allowed:
+                continue
+            while c.conn is not None and c.conn.c2s:
+                W.c2s(ci)
+                progress = True
+                n += 1
+            while c.conn is not None and c.conn.s2c:
+                W.s2c(ci)
+                progress = True
+                n += 1
+            if c.eq._calls:
+                W.turn(ci)
+                progress = True
+                n += 1
+            if c.svc.stopping is not None and not c.svc.stopping.called:
+                W.svc_stopped(ci)
+                progress = True
+                n += 1
+
+
+def _shuffle_only(W, rng, n, allowed):
+    for _ in range(n):
+        ops = [o for o in _enabled(W) if o[1] in allowed]
+        if not ops:
+            return
+        W.do(rng.choice(ops))
+
+
+def run_multi(case):
+    """Several independent sessions in one process; every session is judged separately by the
+    same oracle as a single pair."""
+    rng = random.Random(case["seed"])
+    ss = case["sessions"]
+    with mb.World(seed=case["seed"] % 1000) as W:
+        run = Run(W)
+        run.crossed = set()
+        vers = []
+        for k, sc in enumerate(ss):
+            vers.append(({"v": "A", "n": k}, {"v": "B", "n": k}))
+            for side in (0, 1):
+                c = W.add_client(delegated=sc["delegA" if side == 0 else "delegB"], versions=vers[k][side])
+                run.taps.append(Tap(run, c))
+        for c in W.clients:
+            k = c.index // 2
+            run.line("client %d %s %s" % (c.index, hs(mb.APPID),
+                                          hx(json.dumps(vers[k][c.index % 2], sort_keys=True).encode())), "ok")
+        declared = set()
+
+        def declare(s):
+            if s not in declared and NFC(s) != s:
+                declared.add(s)
+                run.line("nfc %s %s" % (hs(s), hs(NFC(s))), "ok")
+        for sc in ss:
+            declare(sc["codeA"])
+            declare(sc["codeB"])
+        for c in W.clients:
+            if not c.delegated:
+                for _ in range(4):
+                    W.do(["api", c.index, "get_message"])
+            W.do(["open", c.index])
+        everyone = set(range(len(W.clients)))
+        held = set()          # clients whose peer's PAKE frame is being held back
+        gone = set()          # ... for good (leftover sessions)
+        order = list(range(len(ss)))
+        rng.shuffle(order)
+        # every A side enters its code and publishes its PAKE
+        for k in order:
+            W.do(["api", 2 * k, "set_code", ss[k]["codeA"]])
+            _settle_only(W, {2 * k})
+        # sessions in which the VERSION overtakes the PAKE on side A
+        for k in order:
+            if not ss[k]["overtake"]:
+                continue
+            a, b = 2 * k, 2 * k + 1
+            W.do(["api", b, "set_code", ss[k]["codeB"]])
+            _settle_only(W, {b})                      # b: gets a's PAKE, publishes PAKE and VERSION
+            frames = W.msg_frames(a)
+            if len(frames) >= 2:
+                W.swapmsg(a, 0, 1)                    # VERSION first
+                for _ in range(frames[0] + 1):
+                    W.s2c(a)                          # ... delivered; the PAKE frame stays queued
+                held.add(a)
+                if ss[k]["leftover"]:
+                    gone.add(a)
+        # the other sessions run their key exchange meanwhile
+        for k in order:
+            if ss[k]["overtake"]:
+                continue
+            W.do(["api", 2 * k + 1, "set_code", ss[k]["codeB"]])
+            if case["shuffle"]:
+                _shuffle_only(W, rng, case["shuffle"], everyone - held)
+        _settle_only(W, everyone - held)
+        # the held-back PAKE frames finally arrive (except in leftover sessions)
+        live = everyone - gone
+        _settle_only(W, live)
+        for k in order:
+            for side, key in ((0, "sendsA"), (1, "sendsB")):
+                for m in ss[k][key]:
+                    W.do(["api", 2 * k + side, "send", m])
+            if case["shuffle"]:
+                _shuffle_only(W, rng, 10, live)
+        _settle_only(W, live)
+        derived = {}
+        for c in W.clients:
+            derived[c.index] = {}
+            for p in ("", "a"):
+                r = W.api(c.index, "derive_key", p, 32)
+                derived[c.index][(p, 32)] = r
+                if not run.taps[c.index].off:
+                    shown = r if r in ("NoKeyError", "ValueError", "TypeError") else "#%d" % run.val(bytes.fromhex(r))
+                    run.line("derive %d %s 32" % (c.index, hs(p)), shown)
+        for c in W.clients:
+            W.do(["api", c.index, "close"])
+        _settle_only(W, live)
+        viol, tags = [], ["multi:%d" % len(ss)]
+        for k, sc in enumerate(ss):
+            A, B = W.clients[2 * k], W.clients[2 * k + 1]
+            met = A.boss._M._mailbox is not None and A.boss._M._mailbox == B.boss._M._mailbox
+            scase = dict(appidA=mb.APPID, appidB=mb.APPID, sendsA=sc["sendsA"], sendsB=sc["sendsB"], cross=False,
+                         adversary=None, early_close="leftover" if sc["leftover"] else None)
+            v, t = oracle(scase, W, run, sc["codeA"], sc["codeB"], met,
+                          {0: derived[A.index], 1: derived[B.index]}, pair=(A, B), vers=vers[k])
+            viol += [(sig, "session %d of %d (clients %d/%d%s): %s" % (
+                k, len(ss), A.index, B.index, ", VERSION before PAKE on client %d" % A.index if sc["overtake"] else "", msg))
+                for (sig, msg) in v]
+            tags += ["multi-" + x for x in t]
+            if sc["overtake"]:
+                tags.append("multi-overtake" + ("-leftover" if sc["leftover"] else ""))
+        if any("O=S0_no_pake" in e and "rx " in l and not l.endswith(" pake") for l, e in zip(run.lines, run.expect)):
+            tags.append("multi-version-parked-before-pake")
+        nontrivial = any(t.heard_pake for t in run.taps)
+        return Result(run.lines, run.expect, viol, tags, nontrivial,
+                      info=dict(events={c.index: c.events for c in W.clients}))
+
+
 def run_case(case):
+    if case["kind"] == "multi":
+        return run_multi(case)
     if case["kind"] != "pair":
         raise ValueError(case["kind"])
     rng = random.Random(case["seed"])
@@ -580,12 +787,15 @@ def verdict(c):
     return None
 
 
-def oracle(case, W, run, codeA, codeB, met, derived):
-    A, B = W.clients
+def oracle(case, W, run, codeA, codeB, met, derived, pair=None, vers=None):
+    """`pair` = the two clients of the session being judged (default: the only two of the world);
+    `vers` = the app versions they announce.  Every session is judged on its own."""
+    A, B = pair if pair is not None else W.clients
+    vA_, vB_ = vers if vers is not None else ({"v": "A", "n": 1}, {"v": "B"})
     viol = []
     tags = []
     same = NFC(codeA) == NFC(codeB) and NFC(case["appidA"]) == NFC(case["appidB"])
-    exchanged = all(t.heard_pake for t in run.taps)      # both sides were handed the other's PAKE message
+    exchanged = all(run.taps[c.index].heard_pake for c in (A, B))   # both sides were handed the other's PAKE message
     interfered = case["adversary"] is not None or case["early_close"] is not None
     tags.append("same" if same else "different")
     tags.append("exchanged" if exchanged else "not-exchanged")
@@ -601,7 +811,7 @@ def oracle(case, W, run, codeA, codeB, met, derived):
         if len(vA) != 1 or len(vB) != 1 or vA != vB:
             viol.append(("same-code-verifier", f"codes {codeA!r}/{codeB!r}: verifiers {vA} vs {vB}"))
         for (c, o) in ((A, B), (B, A)):
-            want = json.dumps({"v": "A", "n": 1} if o is A else {"v": "B"}, sort_keys=True)
+            want = json.dumps(vA_ if o is A else vB_, sort_keys=True)
             if evs(c, "versions") != [want]:
                 viol.append(("same-code-versions", f"client {c.index} got versions {evs(c, 'versions')} want {want}"))
             sent = case["sendsA"] if o is A else case["sendsB"]
@@ -643,7 +853,8 @@ def oracle(case, W, run, codeA, codeB, met, derived):
         for c in (A, B):
             t = run.taps[c.index]
             closed_first = case["early_close"] == "A" and c is A
-            if t.heard and not closed_first and not c.internal and case["adversary"] is None:
+            if t.heard and not closed_first and not c.internal and case["adversary"] is None \
+                    and case["early_close"] != "leftover":
                 if verdict(c) != "WrongPasswordError":
                     viol.append(("mismatch-verdict", f"client {c.index} heard {t.heard} peer message(s) under a different code but closed with {verdict(c)}"))
         if keyA and keyB:
@@ -685,16 +896,40 @@ def search(rng, seconds, seeds):
     t0 = time.time()
     for c in seeds:
         yield c, run_case(c)
-    for c in corpus(rng):
+    for c in multi_corpus(rng) + corpus(rng):
         yield c, run_case(c)
         if time.time() - t0 > seconds:
             return
     while time.time() - t0 < seconds:
-        c = random_case(rng)
+        c = random_multi(rng) if rng.random() < 0.3 else random_case(rng)
         yield c, run_case(c)
 
 
 def shrink(case):
+    if case.get("kind") == "multi":
+        ss = case["sessions"]
+        if len(ss) > 2:
+            for i in range(len(ss)):
+                rest = ss[:i] + ss[i + 1:]
+                # keep the shape that matters (a parked VERSION next to another key exchange), so that
+                # a smaller case is still a self-contained reproducer
+                if any(x["overtake"] for x in ss) and not any(x["overtake"] for x in rest):
+                    continue
+                c = dict(case)
+                c["sessions"] = rest
+                yield c
+        for i, sc in enumerate(ss):
+            for k in ("sendsA", "sendsB"):
+                if sc[k]:
+                    c = dict(case)
+                    c["sessions"] = [dict(x) for x in ss]
+                    c["sessions"][i][k] = []
+                    yield c
+        if case.get("shuffle"):
+            c = dict(case)
+            c["shuffle"] = 0
+            yield c
+        return
     for k in ("sendsA", "sendsB"):
         if case.get(k):
             c = dict(case)
